@@ -103,6 +103,7 @@ func main() {
 		}
 		run(p, c)
 		sqlClauseRules(p, c)
+		schemaKeyRules(p, c)
 		if c.Tier == "thorough" && os.Getenv("VERIF_REPO") == "" {
 			thoroughExtras(p, c)
 		}
